@@ -60,3 +60,102 @@ VARIANTS += [
       "            if not _is_ok(point):\n",
       "            if not _is_ok(point[0:n]):\n", "fire", "D10.2"),
 ]
+
+VARIANTS += [
+    V("first-row-check-inverted", O, "            if not _is_ok(point):\n",
+      "            if _is_ok(point):\n", "fire", "D10.2"),
+    V("first-row-not-start-state", O,
+      "            point[0:n] = starting_state\n", "", "fire", "D10.2"),
+    V("rows-built-when-finished-or-ok", O,
+      "        if is_finished and func_state.is_ok:",
+      "        if is_finished or func_state.is_ok:", "fire", "D10.2"),
+    V("row-loop-skips-row-one", O, "            for point in result[1:]:",
+      "            for point in result[2:]:", "fire", "D10.2"),
+    V("first-row-alias-wrong-row", O,
+      "            point: np.ndarray = result[0]",
+      "            point: np.ndarray = result[1]", "fire", "D10.2"),
+    V("controller-not-called-for-later-rows", O,
+      "                    controller(point[0:n], t, parameters, "
+      "point[n:-1])\n", "", "fire", "D10.3"),
+    V("interpolator-search-inverted", O,
+      "                while not (dense.t_min <= t <= dense.t_max):",
+      "                while (dense.t_min <= t <= dense.t_max):", "fire",
+      "D10.7"),
+    V("interpolator-index-stuck", O,
+      "                    j += 1  # step counter\n", "", "fire", "D10.7"),
+    V("interpolator-bound-off-by-one", O,
+      "                    if j >= n_dense:", "                    if j > "
+      "n_dense:", "fire", "D10.7"),
+    V("interpolator-range-strict", O,
+      "while not (dense.t_min <= t <= dense.t_max):",
+      "while not (dense.t_min <= t < dense.t_max):", "fire", "D10.7"),
+    V("interpolator-search-starts-at-one", O,
+      "            j: int = 0  # the index of the dense interpolator",
+      "            j: int = 1  # the index of the dense interpolator", "fire",
+      "D10.7"),
+    V("exhausted-search-keeps-looping", O,
+      "                        is_finished = False  # and try the whole "
+      "thing again\n                        break",
+      "                        is_finished = False  # and try the whole "
+      "thing again\n                        continue", "fire", "D10.7"),
+    V("cycle-keeps-old-interpolators", O,
+      "        denses.clear()  # always discard", "        pass  # always "
+      "discard", "fire", "D10.8"),
+    V("out-of-bounds-step-not-left", O,
+      "            if not func_state.is_ok:\n                break",
+      "            if func_state.is_ok:\n                break", "fire",
+      "D10.8"),
+    V("finished-means-not-finished", O,
+      "            is_finished = integration.status == \"finished\"",
+      "            is_finished = integration.status != \"finished\"", "fire",
+      "D10.8"),
+    V("interpolator-not-collected", O,
+      "                denses.append(integration.dense_output())\n",
+      "                pass\n", "fire", "D10.8"),
+    V("running-step-leaves-loop", O,
+      "                continue  # more integration to do, so we go on",
+      "                pass  # more integration to do", "fire", "D10.8"),
+    V("finished-solver-stepped-again", O,
+      "                if is_finished:\n                    break  # we are "
+      "finished",
+      "                if is_finished:\n                    pass  # we are "
+      "finished", "fire", "D10.8"),
+    V("tracker-arguments-swapped", O,
+      "        equations, controller, parameters, controller_dim)",
+      "        controller, equations, parameters, controller_dim)", "fire",
+      "D10.8"),
+    V("j-weight-is-time-sum", O,
+      "        weight: float = next_row[-1] - last_row[-1]",
+      "        weight: float = next_row[-1] + last_row[-1]", "fire",
+      "D10.6"),
+    V("j-uses-next-row-values", O, "            v = last_row[inner]\n"
+      "            inner -= 1", "            v = next_row[inner]\n"
+      "            inner -= 1", "fire", "D10.6"),
+    V("j-gamma-on-states", O,
+      "                dest[index] = (v * v) * weight if -1e100 < v < 1e100 "
+      "else 1e100",
+      "                dest[index] = (v * v) * weight_01 if -1e100 < v < "
+      "1e100 else 1e100", "fire", "D10.6"),
+    V("j-first-states-counted", O, "    add_state: bool = False",
+      "    add_state: bool = True", "fire", "D10.6"),
+    V("j-not-divided-by-time", O, "    return fsum(dest) / ode[-1, -1]",
+      "    return fsum(dest)", "fire", "D10.6"),
+    V("j-kernel-arguments-swapped", O,
+      "    __j_from_ode_compute(ode, state_dim, use_state_dims, gamma, "
+      "dest)",
+      "    __j_from_ode_compute(ode, use_state_dims, state_dim, gamma, "
+      "dest)", "fire", "D10.6"),
+    V("silent-retry-shrink-factor", O,
+      "            max_time = np.nextafter(0.7 * min(func_state.max_ok_t,",
+      "            max_time = np.nextafter(0.6 * min(func_state.max_ok_t,",
+      "silent", "", "a numeric heuristic of the retry, not part of the "
+      "contract"),
+    V("silent-fewer-cycles", O, "        if (cycle > 4) or (max_time <= "
+      "1e-10):", "        if (cycle > 3) or (max_time <= 1e-10):", "silent",
+      ""),
+    V("silent-j-square-written-differently", O,
+      "            dest[index] = (v * v) * weight_01 if -1e100 < v < 1e100 "
+      "else 1e100",
+      "            dest[index] = weight_01 * v ** 2 if -1e100 < v < 1e100 "
+      "else 1e100", "silent", ""),
+]
